@@ -11,7 +11,7 @@ Next == UNCHANGED <<degs, maxdeg>>
 RECURSIVE SizeFromM(_, _, _, _)
 SizeFromM(d, start, size, md) == IF start + size < Len(d) /\ d[start + size + 1] < md THEN SizeFromM(d, start, size + 1, md) ELSE size
 RECURSIVE GreedyM(_, _, _)
-GreedyM(d, start, md) == IF start >= Len(d) THEN <<>> ELSE LET sz == SizeFromM(d, start, 0, md) IN <<<<start, sz>>>> \o GreedyM(d, start + sz, md)
+GreedyM(d, start, md) == IF start >= Len(d) THEN <<>> ELSE LET sz == SizeFromM(d, start, 0, md) IN << <<start, sz>> >> \o GreedyM(d, start + sz, md)
 G == IF Mutant = "ignore_size" /\ ~SingleGroup(degs, maxdeg) THEN GreedyM(degs, 0, maxdeg) ELSE Groups(degs, maxdeg)
 Inv == Admissible(degs, maxdeg) => GroupsOk(degs, maxdeg, G) /\ FiltersOk(degs, G)
 =============================================================================
